@@ -469,6 +469,8 @@ SEEDS = [
     ("lib", "int grid [ 20 - 8 - 4 ] [ 100 / 10 / 5 ]"),
     ("lib", "enum Level { LOW = 9 - 4 - 1 , MID = LOW * 4 / 2 * 3 , TOP = 2 - LOW + MID }"),
     ("lib", "int & * var1"),
+    ("lib", "void mask ( int bits = 017 )"),
+    ("lib", "enum Perm { RW = 06 * 010 }"),
     ("lib", "template < typename Class1 > Class1 twice ( Class1 value )"),
     ("lib", "template < typename size_t > void grow ( size_t * n )"),
     ("class", "Class1 ( int flag ) +name ( new )"),
